@@ -1,13 +1,16 @@
 import DustVerif.Proofs.TreeDelete
+import DustVerif.Proofs.TreeTopics
+import DustVerif.Model.TreeOld
 /-! Property C36: entity deletion follows the DDS preconditions.  Model: `Model/Tree.lean`
-    (participant_methods.rs:99,188,303,508, publisher_methods.rs:128, subscriber_methods.rs:153,
-    dcps_participant_factory.rs:80).  Every clause is a statement about ONE step from an ARBITRARY state, hence
-    about every step of every history; "changes nothing" is the `s` in the result pair.
+    (participant_methods.rs:99,188,303,408,508, publisher_methods.rs:128, subscriber_methods.rs:153,
+    dcps_participant_factory.rs:80) = the code WITH fixes/D-tree-1.patch (`delete_contentfilteredtopic` removes the
+    content-filtered topic unless a reader uses it; `delete_contained_entities` clears them) and fixes/D-tree-2.patch
+    (`delete_topic` refuses while a content-filtered topic refers to the topic).  Every clause is a statement about
+    ONE step from an ARBITRARY state, hence about every step of every history; "changes nothing" is the `s` in the
+    result pair.
 
     Not callable (so not modelled): `PublisherAsync/SubscriberAsync::delete_contained_entities` are `todo!()`.
-    Two as-is failures, both about content-filtered topics, are kept as counter-example theorems with findings:
-    a participant that ever had a content-filtered topic can never be deleted (nothing removes one), and a topic
-    used by a reader THROUGH a content-filtered topic can be deleted. -/
+    The two failures of the code before the patches (`Model/TreeOld.lean`) are kept as regression witnesses. -/
 namespace DustVerif.Tree
 
 /-! ### a non-empty parent is not deleted, and nothing changes -/
@@ -49,6 +52,33 @@ theorem C36_topic_used_by_reader (s : St) (via : Nat) (r : TopicRef) (p : Part) 
     deleteTopic s via r = (s, .err .preconditionNotMet) := by
   unfold deleteTopic
   cases hww : s.writers.any (writerUsesTopic p.uid r.name) <;> simp [hp, hpar, hb, ht, hw, hww]
+
+/-- deleting a topic a content-filtered topic refers to → PreconditionNotMet, state unchanged (fixes/D-tree-2) -/
+theorem C36_topic_referred_by_cft (s : St) (via : Nat) (r : TopicRef) (p : Part) (t : Topic)
+    (hp : findPart s r.ph = some p) (hpar : via = p.uid % U32) (hb : isBuiltinName r.name = false)
+    (ht : findTopic s p.uid r.name = some t) (hc : s.cfts.any (cftRefersTo p.uid r.name) = true) :
+    deleteTopic s via r = (s, .err .preconditionNotMet) := by
+  unfold deleteTopic
+  cases hww : s.writers.any (writerUsesTopic p.uid r.name) <;>
+    cases hrr : s.readers.any (readerUsesTopic p.uid r.name) <;> simp [hp, hpar, hb, ht, hc, hww, hrr]
+
+/-- deleting a topic that a reader uses THROUGH a content-filtered topic (the reader's topic name is the name of a
+    content-filtered topic of that participant whose related topic is this one) → PreconditionNotMet, state unchanged -/
+theorem C36_topic_used_through_cft (s : St) (via : Nat) (r : TopicRef) (p : Part) (t : Topic) (c : Cft) (rd : Reader)
+    (hp : findPart s r.ph = some p) (hpar : via = p.uid % U32) (hb : isBuiltinName r.name = false)
+    (ht : findTopic s p.uid r.name = some t)
+    (hc : c ∈ s.cfts) (hcp : c.part = p.uid) (hrel : c.related = r.name)
+    (_hrd : rd ∈ s.readers ∧ rd.part = p.uid ∧ rd.topic = c.name) :
+    deleteTopic s via r = (s, .err .preconditionNotMet) := by
+  apply C36_topic_referred_by_cft s via r p t hp hpar hb ht
+  rw [List.any_eq_true]
+  exact ⟨c, hc, by simp [cftRefersTo, hcp, hrel]⟩
+
+/-- deleting a content-filtered topic a reader was created on → PreconditionNotMet, state unchanged (fixes/D-tree-1) -/
+theorem C36_cft_used_by_reader (s : St) (ph : Nat) (n : String) (p : Part) (hp : findPart s ph = some p)
+    (hc : s.cfts.any (isCftN p.uid n) = true) (hr : s.readers.any (readerUsesTopic p.uid n) = true) :
+    deleteCft s ph n = (s, .err .preconditionNotMet) := by
+  unfold deleteCft; simp [hp, hc, hr]
 
 /-- deleting an entity through a participant that is not its parent → PreconditionNotMet, state unchanged -/
 theorem C36_wrong_parent (s : St) (via : Nat) (p : Part) (hp : findPart s via = some p) :
@@ -144,13 +174,18 @@ theorem C36_absent_reader (s : St) (w : EndRef) (h : resolveReader s w = none) :
   · unfold enableReader; simp [h]
   · simp [step, probe, h]
 
-/-! ### a deleted entity IS gone (needs unique handles: `Inv` holds in every reachable state, `Bounded` = no counter
-    has wrapped, which the debug profile guarantees, `C36_reachable_good`) -/
+/-- no content-filtered topic of that name (never created, or deleted): `delete_contentfilteredtopic` → AlreadyDeleted -/
+theorem C36_absent_cft (s : St) (ph : Nat) (n : String) (p : Part) (hp : findPart s ph = some p)
+    (h : s.cfts.any (isCftN p.uid n) = false) : deleteCft s ph n = (s, .err .alreadyDeleted) := by
+  unfold deleteCft; simp [hp, h]
 
-theorem C36_reachable_good (ops : List Op) (hn : (run (St.init .debug) ops).nextPart ≤ U32) :
-    Inv (run (St.init .debug) ops) ∧ Bounded (run (St.init .debug) ops) := by
-  have hg := good_run (good_init .debug) ops
-  exact ⟨hg.1, hg.2.bounded (by rw [prof_run]; rfl) hn⟩
+/-! ### a deleted entity IS gone (needs unique handles: `Inv` and `Bounded` = no counter has wrapped; with
+    fixes/D40.patch both hold in EVERY reachable state of either profile, `C36_reachable_good`) -/
+
+theorem C36_reachable_good (pr : Profile) (ops : List Op) :
+    Inv (run (St.init pr) ops) ∧ Bounded (run (St.init pr) ops) :=
+  let hg := good_run (good_init pr) ops
+  ⟨hg.1, hg.2.bounded⟩
 
 /-- after a successful `delete_publisher` no publisher answers to that handle any more -/
 theorem C36_deleted_publisher_is_gone (s : St) (hi : Inv s) (hb : Bounded s) (via : Nat) (r : GroupRef) (s' : St)
@@ -274,17 +309,34 @@ theorem C36_deleted_topic_is_gone (s : St) (via : Nat) (r : TopicRef) (s' : St) 
           · simp at h
           · split at h
             · simp at h
-            · injection h with h _
-              subst h
-              exact ⟨p, hp, find_filter_notTopicN _ _ _⟩
+            · split at h
+              · simp at h
+              · injection h with h _
+                subst h
+                exact ⟨p, hp, find_filter_notTopicN _ _ _⟩
+
+/-- after a successful `delete_contentfilteredtopic` no content-filtered topic of that name is left -/
+theorem C36_deleted_cft_is_gone (s : St) (ph : Nat) (n : String) (s' : St) (h : deleteCft s ph n = (s', .ok)) :
+    ∃ p, findPart s' ph = some p ∧ s'.cfts.any (isCftN p.uid n) = false := by
+  unfold deleteCft at h
+  split at h
+  · simp at h
+  · rename_i p hp
+    split at h
+    · simp at h
+    · split at h
+      · simp at h
+      · injection h with h _
+        subst h
+        refine ⟨p, hp, ?_⟩
+        exact any_filter_not (notCftN p.uid n) (isCftN p.uid n) s.cfts
+          (by intro x hx; unfold notCftN; unfold isCftN at hx; simp [hx])
 
 /-! ### delete_contained_entities -/
 
-/-- C36 (partial): `delete_contained_entities` of a participant WITHOUT content-filtered topics succeeds, leaves the
-    participant empty, and `delete_participant` then succeeds.  Excluded: participants that have (ever had) a
-    content-filtered topic, see the counter-example below. -/
-theorem C36_delete_contained_then_delete_partial (s : St) (ph : Nat) (p : Part) (hp : findPart s ph = some p)
-    (hc : s.cfts.any (cftOfPart p.uid) = false) :
+/-- C36: `delete_contained_entities` of ANY participant succeeds, leaves the participant empty, and
+    `delete_participant` then succeeds (full: with fixes/D-tree-1.patch the content-filtered topics go as well) -/
+theorem C36_delete_contained_then_delete (s : St) (ph : Nat) (p : Part) (hp : findPart s ph = some p) :
     (deleteContained s ph).2 = .ok ∧ partEmpty (deleteContained s ph).1 p.uid = true ∧
     (deletePart (deleteContained s ph).1 ph).2 = .ok := by
   have e1 := any_filter_not (notPubOfPart p.uid) (pubOfPart p.uid) s.pubs
@@ -293,6 +345,8 @@ theorem C36_delete_contained_then_delete_partial (s : St) (ph : Nat) (p : Part) 
     (by intro x hx; unfold notSubOfPart; unfold subOfPart at hx; simp [hx])
   have e3 := any_filter_not (notTopicOfPart p.uid) (topicOfPart p.uid) s.topics
     (by intro x hx; unfold notTopicOfPart; unfold topicOfPart at hx; simp [hx])
+  have e4 := any_filter_not (notCftOfPart p.uid) (cftOfPart p.uid) s.cfts
+    (by intro x hx; unfold notCftOfPart; unfold cftOfPart at hx; simp [hx])
   have hp2 := hp
   unfold findPart at hp2
   unfold deleteContained
@@ -301,31 +355,41 @@ theorem C36_delete_contained_then_delete_partial (s : St) (ph : Nat) (p : Part) 
   refine ⟨trivial, ?_, ?_⟩
   · unfold partEmpty
     simp only
-    rw [e1, e2, e3, hc]
+    rw [e1, e2, e3, e4]
     rfl
   · unfold deletePart findPart partEmpty
     simp only
     rw [hp2]
     simp only
-    rw [e1, e2, e3, hc]
+    rw [e1, e2, e3, e4]
     rfl
 
-/-- as-is: one content-filtered topic, and the participant can never be deleted again — neither
-    `delete_contentfilteredtopic` (a no-op, participant_methods.rs:408) nor `delete_contained_entities` removes it -/
+/-- C36 (history form of the topic clauses): in EVERY reachable state every writer's topic exists, every reader's
+    topic or content-filtered topic exists, and every content-filtered topic's related topic exists — no sequence of
+    deletions (delete_topic, delete_contentfilteredtopic, delete_contained_entities, …) can take a topic away from
+    under an entity that uses it -/
+theorem C36_topic_in_use_exists (pr : Profile) (ops : List Op) : TopInv (run (St.init pr) ops) :=
+  top_run (top_init pr) ops
+
+/-! ### regression witnesses: the code before the patches (`Model/TreeOld.lean`) and the same histories after -/
+
+/-- before fixes/D-tree-1.patch: one content-filtered topic, and the participant can never be deleted again — neither
+    `delete_contentfilteredtopic` (a no-op) nor `delete_contained_entities` removed it.  After: it can. -/
 theorem C36_delete_contained_counterexample :
     let ops : List Op := [.createPart true, .createTopic 0 "A" true, .createCft { ph := 0, name := "A" } "F",
       .deleteCft 0 "F", .deleteContained 0, .deletePart 0]
-    outs (St.init .debug) ops =
-      [.handle (partHandle 0), .handle { pfx := 0, ent := { b0 := 0, b1 := 0, b2 := 0, kind := KIND_TOPIC } },
-       .ok, .ok, .ok, .err .preconditionNotMet] := by decide +kernel
+    (outsOld (St.init .debug) ops).getLast? = some (.err .preconditionNotMet) ∧
+    (outs (St.init .debug) ops).getLast? = some .ok := by decide +kernel
 
-/-- as-is: a topic that a reader uses through a content-filtered topic is deleted without complaint
-    (the reader stores the name of the FILTERED topic, participant_methods.rs:337 compares with the base name) -/
+/-- before fixes/D-tree-2.patch: a topic that a reader uses through a content-filtered topic is deleted without
+    complaint.  After: PreconditionNotMet, and the topic is still there. -/
 theorem C36_topic_in_use_counterexample :
     let ops : List Op := [.createPart true, .createTopic 0 "A" true, .createCft { ph := 0, name := "A" } "F",
       .createSub 0 true, .createReader { ph := 0, b := 0 } "F" true, .deleteTopic 0 { ph := 0, name := "A" }]
-    (outs (St.init .debug) ops).getLast? = some .ok ∧
-    (run (St.init .debug) ops).readers.length = 1 ∧ (run (St.init .debug) ops).topics.length = 0 := by
+    (outsOld (St.init .debug) ops).getLast? = some .ok ∧
+    (runOld (St.init .debug) ops).readers.length = 1 ∧ (runOld (St.init .debug) ops).topics.length = 0 ∧
+    (outs (St.init .debug) ops).getLast? = some (.err .preconditionNotMet) ∧
+    (run (St.init .debug) ops).topics.length = 1 := by
   decide +kernel
 
 /-! ### non-vacuity: the hypotheses of the clauses are met in reachable states -/
@@ -346,7 +410,25 @@ example :
       (by decide +kernel) (by decide +kernel) (by decide +kernel)
   · exact C36_participant_with_entities _ 0 { uid := 0, enabled := true, autoenable := true } (by decide +kernel)
       (Or.inl (by decide +kernel))
-  · exact (C36_delete_contained_then_delete_partial _ 0 { uid := 0, enabled := true, autoenable := true }
-      (by decide +kernel) (by decide +kernel)).2.2
+  · exact (C36_delete_contained_then_delete _ 0 { uid := 0, enabled := true, autoenable := true }
+      (by decide +kernel)).2.2
+
+/-- the content-filtered-topic clauses are met in reachable states: a reader on a filtered topic protects both the
+    filtered topic and its base topic; once the reader is gone both can be deleted, in that order -/
+example :
+    let s := run (St.init .debug) [.createPart true, .createTopic 0 "A" true, .createCft { ph := 0, name := "A" } "F",
+      .createSub 0 true, .createReader { ph := 0, b := 0 } "F" true]
+    deleteCft s 0 "F" = (s, .err .preconditionNotMet) ∧
+    deleteTopic s 0 { ph := 0, name := "A" } = (s, .err .preconditionNotMet) ∧
+    outs s [.deleteReader { ph := 0, b := 0 } { ph := 0, b := 0, ent := readerEnt 0 0 true },
+            .deleteTopic 0 { ph := 0, name := "A" }, .deleteCft 0 "F", .deleteTopic 0 { ph := 0, name := "A" },
+            .deleteCft 0 "F"] =
+      [.ok, .err .preconditionNotMet, .ok, .ok, .err .alreadyDeleted] := by
+  refine ⟨?_, ?_, by decide +kernel⟩
+  · exact C36_cft_used_by_reader _ 0 "F" { uid := 0, enabled := true, autoenable := true } (by decide +kernel)
+      (by decide +kernel) (by decide +kernel)
+  · exact C36_topic_referred_by_cft _ 0 _ { uid := 0, enabled := true, autoenable := true }
+      { part := 0, uid := 0, name := "A", keyed := true, enabled := true } (by decide +kernel) (by decide)
+      (by decide +kernel) (by decide +kernel) (by decide +kernel)
 
 end DustVerif.Tree
